@@ -338,8 +338,19 @@ class _Inliner(object):
         """The first call (evaluation order approximated by position) of a new
         helper inside a simple statement."""
         best = None
+        # calls inside a comprehension or lambda depend on its variables and
+        # may run many times: they cannot be hoisted in front of the statement
+        scoped = set()
+        for n in ast.walk(stmt):
+            if isinstance(n, (ast.ListComp, ast.SetComp, ast.DictComp,
+                              ast.GeneratorExp, ast.Lambda)):
+                for y in ast.walk(n):
+                    if y is not n:
+                        scoped.add(id(y))
         for n in ast.walk(stmt):
             if isinstance(n, FUNC + (ast.Lambda,)):
+                continue
+            if id(n) in scoped:
                 continue
             if isinstance(n, ast.Call) and self.resolve(n, cls) is not None:
                 k = (getattr(n, 'lineno', 0), getattr(n, 'col_offset', 0))
@@ -363,6 +374,37 @@ class _Inliner(object):
                         continue
                 out.append(s)
                 continue
+            if isinstance(s, ast.If):
+                # ``if helper(...):`` / ``if not helper(...):`` - the call is
+                # the first thing the test evaluates, so it can be computed
+                # into a temporary right before the statement
+                t = s.test
+                inner = t.operand if isinstance(t, ast.UnaryOp) and \
+                    isinstance(t.op, ast.Not) else t
+                if isinstance(inner, ast.Call) and \
+                        self.resolve(inner, cls) is not None:
+                    self.tmp += 1
+                    tname = '__inl%d' % self.tmp
+                    asg = ast.copy_location(ast.Assign(
+                        targets=[ast.Name(id=tname, ctx=ast.Store())],
+                        value=inner), s)
+                    ast.fix_missing_locations(asg)
+                    new = self.expand(asg, inner, cls, depth)
+                    if new is not None:
+                        nm = ast.copy_location(
+                            ast.Name(id=tname, ctx=ast.Load()), inner)
+                        if inner is t:
+                            s.test = nm
+                        else:
+                            t.operand = nm
+                        _renumber(self.tree, s, new + [s])
+                        for fld in ('body', 'orelse'):
+                            b = getattr(s, fld, None)
+                            if isinstance(b, list) and b:
+                                setattr(s, fld, self.block(b, cls, depth))
+                        out.extend(new)
+                        out.append(s)
+                        continue
             for fld in ('body', 'orelse', 'finalbody'):
                 b = getattr(s, fld, None)
                 if isinstance(b, list) and b and isinstance(b[0], ast.stmt):
